@@ -5,6 +5,11 @@ ROOT = os.path.dirname(os.path.dirname(os.path.abspath(__file__)))
 ALL = ["C%02d" % i for i in range(1, 21)]
 
 CHECKS = {
+ "C13": dict(
+   technique="TLA+ CompileSession spec (phase order, error gates, Result = no errors, artifact only from an error-free code generation, exit status vs printed diagnostics vs artifact) validating the hook trace + outside observation of every run; inputs from TLA+ enumerators (token mutations, byte-class strings, project layouts); crashes / hangs confirmed alone through the CLI",
+   category="exploration",
+   text="Quick: ~4500 inputs (2200 token mutations of the shipped programs, all strings of <= 3 characters over 14 byte classes alone and inside a function body, 256 two-import project layouts); thorough: 40000 mutations and 30000 strings of <= 4. Every run must terminate within 20 s without an internal crash and its trace must be a behaviour of CompileSession.",
+   note="A crash is keyed by the first repository frame below the Go panic; every 4th input also runs code generation; in-process server results other than clean accept/reject are re-run through the CLI binary."),
  "C19": dict(
    technique="TLA+ SourceLayout spec: trivia as character-class sequences, the scanner position calculus and Shift; TLC-enumerated character sequences replayed into the real Position.Advance; every (program, token gap, trivia) variant compiled by the real front end and each diagnostic's recorded position validated by TLC against Shift of its original position",
    category="exploration",
@@ -82,7 +87,7 @@ CHECKS = {
    note="Trusts the IEEE-754 reading of f32..f256 (24/53/113/237-bit significands), the renderer of the positions and the front-end verdict observed through compiler.Compile (violations are re-confirmed through the CLI binary)."),
 }
 
-HOOK_COMMITS = ["792825e"]
+HOOK_COMMITS = ["792825e", "63e059f"]
 
 def main():
     checks = []
